@@ -1091,6 +1091,9 @@ impl Scenario for E2eSim {
                 }
             }
         }
+        if res.log.unready_calls > 0 {
+            viol("service_called_before_ready", json!({"kind": "tower_contract"}), format!("{} request(s) were handed to a per-connection service that had not been driven to readiness (poll_ready) first; a concurrency-limited or buffered service fails them", res.log.unready_calls));
+        }
         // a connection taken over by an upgrade never serves another request
         for (c, idx) in &res.log.upgrade_seen_index {
             let later = res.log.seen[*idx..].iter().filter(|s| s.conn == *c).count();
